@@ -30,6 +30,11 @@ def generate(seed, tier, index):
     coobs = rf.chance(0.25)
     entry = C.make_script_entry(rs, ru, rk, "euler", SMALL_P if coobs else SPEC_P,
                                 {"steps": (3, 40), "isp": "auto", "p_ongrid": 0.05}, rich=rs.chance(0.85))
+    scale = "species" if index % 60 == 9 else ("cells4k" if index % 240 == 17 else ("cells33k" if index % 1200 == 601 else None))
+    if scale:
+        # inputs at scales the ordinary generator never reaches (more than 32 species, thousands of cells)
+        entry = C.scale_entry(rs.sub("scale"), ru, rk, "euler", scale, steps=(3, 6))
+        coobs = False
     sp = entry["phys"]["sp"]
     m = Model(entry["phys"]["spec"])
     ops = C.observed_ops(rf, sp, "euler", samples=False, readonly=False, post=False, poison=rf.choice([0, 0xff]))
@@ -73,7 +78,7 @@ def generate(seed, tier, index):
     eps.append({"obj": 0, "kind": "euler", "via": rf.choice(["LibRDEngine", "factory"]), "script": 0, "ops": ops})
     return {"format": 1, "property": ID, "seed": seed, "tier": tier, "index": index, "build": "plain",
             "scripts": scripts, "lifetimes": [{"pyseed": rf.bits(30), "episodes": eps}],
-            "meta": {"kind": "euler", "coobs": coobs, "main_episode": len(eps) - 1}}
+            "meta": {"kind": "euler", "coobs": coobs, "main_episode": len(eps) - 1, "scale": scale}}
 
 
 def gen_us(rf):
@@ -196,6 +201,8 @@ def check(case, results):
     stats["engine_steps"] = nst
     stats["nontrivial"] = 1 if nst >= 2 else 0
     stats["space"] = {phys["spec"]["space"]["type"]: 1}
+    if case["meta"].get("scale"):
+        stats["scale_" + case["meta"]["scale"]] = 1
     stats["orders"] = {str(int(o)): 1 for o in set(m.order.tolist())}
     if phys["spec"]["space"]["type"] == "grid":
         sp = phys["spec"]["space"]
